@@ -15,7 +15,15 @@ Parts
   grammar       URL texts and relative references assembled from menus per RFC 3986 production: full-quote and
                 minimal-quote render-after-parse fixed points, legal characters
   totality      every sequence of <= 4 (quick) / <= 5 (thorough) tokens, and every character in 20 structural
-                templates: URL() returns a URL or raises URLParseError; find_all_links never raises
+                templates: URL() returns a URL or raises URLParseError; find_all_links never raises.
+                totality-classes: the same templates filled with the first and the last code point of every class of
+                the partition of Unicode by (general category, isdecimal, isdigit, isnumeric, isspace, kind of NFKC
+                folding to ASCII) - computed from unicodedata, so e.g. superscript / circled / fullwidth / Arabic-Indic
+                digits, compatibility forms of every ASCII delimiter, every kind of space - and with number-like
+                texts (signs, padding, underscores, exponents, radix prefixes, values beyond 65535 / 2**53 / 2**64).
+                totality-long (directed, NOT exhaustive): the templates filled with runs of one unit repeated n
+                times, n around powers of two, the interpreter's int<->str digit limit and integer constants of
+                the module under test
 
 Oracles (all independent of boltons): identity up to NFC; RFC 3986 character classes per position applied to the
 RFC 3986 appendix B split of the rendered text; text equality of two renderings; exception type.
@@ -155,6 +163,61 @@ TOTALITY_TEMPLATES = ['%s', 'http://%s', 'http://a%sb', 'http://a%sb.com/', 'htt
                       'http://h:%s', 'http://h:8%s', 'http://u%s@h', 'http://u:p%s@h', '%s://h', 'http://h/%s',
                       'http://h?%s', 'http://h#%s', 'http://%s.com', 'http://xn--%s', 'http://xn--%s.com/',
                       'www.%s', 'http://a.%s.b', '//%s']
+
+
+# number-like texts: what int() / float() / str.isdigit() / a range test treat differently from "ASCII decimal 1..65535"
+NUMBER_LIKE = ['0', '00', '0080', '65536', '99999', str(2 ** 31), str(2 ** 53 + 1), str(2 ** 64), '-1', '-0', '+80', ' 80',
+               '80 ', '\t80', '80\n', '8_0', '_80', '1e3', '8.0', '0x50', '0o7', '0b1', 'inf', 'nan', '8,0',
+               '\u0668\u0660', '\uff18\uff10', '8\u0660', '\u00b9\u00b2', '8\u00b9', '\u2460', '\u00bd', '\u2167',
+               '\u4e09', '\u0967\u0968\u0969', '\U0001d7ce', '\u2080']
+LONG_UNITS = ['1', '0', '\u0660', '\u00b2', 'a', '%', '%41', '.', ':', '/', '[', '@', '-', ' ', '\u00e9']
+
+
+def _nfkc_kind(c):
+    k = unicodedata.normalize('NFKC', c)
+    if k == c:
+        return None
+    if not k.isascii():
+        return 'other'
+    if k.isdigit():
+        return 'ascii-digits'
+    if k.isalpha():
+        return 'ascii-letters'
+    return 'ascii:' + k if len(k) == 1 else 'ascii-text'
+
+
+def unicode_class_chars():
+    """First and last non-ASCII code point of every class of the partition of the assigned, non-surrogate code points
+    by (general category, isdecimal, isdigit, isnumeric, isspace, kind of NFKC folding to ASCII).  Derived from the
+    interpreter's Unicode tables (stdlib only): a finite set standing for "all Unicode strings" by class."""
+    reps = {}
+    for cp in range(128, 0x110000):
+        c = chr(cp)
+        cat = unicodedata.category(c)
+        if cat in ('Cs', 'Cn'):
+            continue
+        key = (cat, c.isdecimal(), c.isdigit(), c.isnumeric(), c.isspace(), _nfkc_kind(c))
+        r = reps.get(key)
+        if r is None:
+            reps[key] = [c, c]
+        else:
+            r[1] = c
+    return sorted({c for r in reps.values() for c in r}), len(reps)
+
+
+def long_sizes(tier, module=None):
+    """Run lengths around thresholds: powers of two +-1, the int<->str conversion digit limit of the interpreter, and
+    every integer constant >= 64 found at the top level of the module under test (by introspection)."""
+    import sys
+    centres = {256, 4096} if tier == 'quick' else {256, 1024, 4096, 8192, 65536}
+    lim = getattr(sys, 'get_int_max_str_digits', lambda: 0)()
+    if lim:
+        centres.add(lim)
+    for name in sorted(vars(module)) if module is not None else ():
+        val = vars(module)[name]
+        if type(val) is int and 64 <= val <= (1 << 13 if tier == 'quick' else 1 << 17):
+            centres.add(val)
+    return sorted({n + d for n in centres for d in (-1, 0, 1)})
 
 
 def base_text(scheme, host, port):
@@ -643,8 +706,27 @@ def shard_totality_chars(arg, t, g):
             if token_segmentable(text, arg['maxtokens']):
                 continue
             case = {'part': 'totality', 'text': text}
-            t.count(nontrivial=not c.isalnum(), sample=case if len(t.samples) < 3 else None)
+            t.count(nontrivial=not (c.isascii() and c.isalnum()), sample=case if len(t.samples) < 3 else None)
             _record(t, case, g.call(case, eval_totality, U, text))
+
+
+def _clip(x, n=300):
+    return x if not isinstance(x, str) or len(x) <= n else x[:n] + '...(%d characters)' % len(x)
+
+
+def long_text(case):
+    return case['template'] % (case['unit'] * case['n'])
+
+
+def shard_totality_long(arg, t, g):
+    U = _u()
+    for n in arg['sizes']:                      # shortest first
+        for unit in arg['units']:
+            for tmpl in TOTALITY_TEMPLATES:
+                case = {'part': 'totality-long', 'template': tmpl, 'unit': unit, 'n': n}
+                t.count(nontrivial=True, sample=case if len(t.samples) < 3 else None)
+                res = g.call(case, eval_totality, U, long_text(case))
+                _record(t, case, [(sig, exp, _clip(obs), tags) for sig, exp, obs, tags in res or ()])
 
 
 # ----------------------------------------------------------------------------------------------------
@@ -701,7 +783,7 @@ def run(ctx):
     rule = ("component cells, quote: the text contains a character that is not RFC 3986 unreserved; unquote: the "
             "text contains a well-formed %XX escape; grammar: userinfo/path/query/fragment contain something "
             "other than letters, digits and '/', or a present-but-empty component; totality: more than one "
-            "token / a non-alphanumeric character")
+            "token / a character other than an ASCII letter or digit / a run of >= 255 units")
 
     # 1. character x component matrix
     texts = matrix_texts()
@@ -748,6 +830,14 @@ def run(ctx):
     chars = ASCII + NON_ASCII
     args = [{'chars': chunk, 'maxtokens': b['totality_tokens_maxlen']} for chunk in _chunks(chars, 8)]
     inputs.run_shards(ctx, _guarded(shard_totality_chars), args, part='totality-chars', rule=rule)
+    class_chars, n_classes = unicode_class_chars()
+    extra = [c for c in dict.fromkeys(class_chars + NUMBER_LIKE) if c not in chars]
+    args = [{'chars': chunk, 'maxtokens': b['totality_tokens_maxlen']} for chunk in _chunks(extra, 16)]
+    inputs.run_shards(ctx, _guarded(shard_totality_chars), args, part='totality-classes', rule=rule)
+    from boltons import urlutils as _module_under_test
+    sizes = long_sizes(ctx.tier, _module_under_test)
+    args = [{'units': [unit], 'sizes': sizes} for unit in LONG_UNITS]
+    inputs.run_shards(ctx, _guarded(shard_totality_long), args, part='totality-long', rule=rule)
 
     cov = ctx.coverage
     cov['rule'] = rule
@@ -760,6 +850,14 @@ def run(ctx):
         non_ascii=NON_ASCII, atoms=ATOMS, components=list(COMPONENTS), schemes=list(SCHEMES), hosts=list(HOSTS),
         ports=list(PORTS), alphabet24=ALPHABET24, unquote_tokens=UNQUOTE_TOKENS, totality_tokens=TOTALITY_TOKENS,
         totality_templates=TOTALITY_TEMPLATES, find_all_links_variants=[n for n, _ in FAL_VARIANTS],
+        totality_classes={'partition': '(general category, isdecimal, isdigit, isnumeric, isspace, kind of NFKC folding '
+                                       'to ASCII) over all assigned non-surrogate code points >= U+0080',
+                          'classes': n_classes, 'representatives': 'first and last code point of each class',
+                          'characters': len(class_chars), 'number_like': NUMBER_LIKE},
+        totality_long={'exhaustive': False, 'what': 'directed scenario: every template filled with unit * n',
+                       'units': LONG_UNITS, 'sizes': sizes,
+                       'sizes_from': 'powers of two, sys.get_int_max_str_digits(), top-level integer constants of '
+                                     'boltons.urlutils; each -1, +0, +1'},
         grammar_menus={'schemes': list(G_SCHEMES), 'userinfo': list(G_USERINFO), 'hosts': list(G_HOSTS),
                        'ports': list(G_PORTS), 'path_abempty': len(G_PATH_ABEMPTY),
                        'path_absolute': len(G_PATH_ABSOLUTE), 'path_rootless': len(G_PATH_ROOTLESS),
@@ -776,7 +874,10 @@ def run(ctx):
         'ports within 1..65535 (leading zeros and the empty port allowed); the empty authority ("//" followed by '
         'an empty host, as in file:///x or ////) is not explored: an empty host is not a valid host (DESIGN 5.1)',
         'minimal-quote fixed points are demanded only when no decoded component contains "%"',
-        'Unicode is represented by %d code point sequences' % len(NON_ASCII),
+        'Unicode is represented by %d code point sequences in the round-trip parts; in the totality part additionally '
+        'by two code points of each of %d classes of a partition computed from unicodedata' % (len(NON_ASCII), n_classes),
+        'part totality-long is a finite list of directed scenarios (long runs of one unit), not an enumeration; '
+        '"exhaustive" refers to the other parts',
     ]
 
 
@@ -807,6 +908,8 @@ def _replay(ctx, data, case):
         res = eval_grammar(U, case['url'])
     elif part == 'totality':
         res = eval_totality(U, case['text'])
+    elif part == 'totality-long':
+        res = [(sig, exp, _clip(obs), tags) for sig, exp, obs, tags in eval_totality(U, long_text(case))]
     else:
         raise ValueError('unknown replay part %r' % part)
     res = [r for r in res if ctx.known_match(r[0], r[3]) is None]
